@@ -58,9 +58,16 @@ FIXED = [
     (['C17', 'C05'], 'msgpack/validation-fields/*', 'MsgPack path of nested scopes contained garbage', 'MsgPack stream: validation error path of a member of a nested object showed bytes of later strings instead of the parent key ("/1/z/absent" for parent "A"), the parent key string_view referred to the reader buffer that is reused by the next string read'),
     (['C17'], '*/validation-messages/* (Email)', 'Email validator accepted a domain part', 'Email() accepted "user@.com" (empty first label of the domain part)'),
     (['C17'], '*/validation-messages/last-field-truncated-by-maxValidationErrors', 'maxValidationErrors cut the list of messages', 'with maxValidationErrors=N the N-th reported field carried only the message of its first failing validator (KeyValue(key, v, Required(), Range(...)) reported one of two)'),
+    (['C04', 'C08'], 'xml/attribute/*', 'XML attributes were loaded into numbers without range checking', 'XML attribute values were read with pugixml as_int()/as_uint()/as_float() and static_cast: au8="300" loaded 44 into uint8_t, ai16="70000" loaded 4464, au32="-1" loaded 0, ai="99999999999999999999" loaded INT64_MAX, af="1e999" loaded infinity, all silently and ignoring both policies'),
 ]
 
 KNOWN = [
+    ('C08', 'xml/writer/carriage-return-written-raw',
+     'XML text that contains U+000D (e.g. vector<string>{"S\\rR"}) is written with a raw CR byte by pugixml (node_pcdata is escaped only for <, >, & and other control characters); every conforming parser (expat) normalises it to U+000A (XML 1.0 section 2.11), and the library itself reads it back as LF (parse_eol). Third-party writer behaviour: pugixml has no format flag that emits &#13; in PCDATA'),
+    ('C08', 'json/double-parsed-inexactly',
+     'a double rendered with 17-18 significant digits or in the %.17e spelling (all standard JSON numbers for the same value) is loaded 1-3 ULP off: RapidJSON 1.1.0 default (non full-precision) number parsing; see the C01 entry for why the flag is not enabled'),
+    ('C08', 'json/float-max-rejected-after-inexact-parse',
+     '[3.4028234663852886e+38] (= FLT_MAX exactly) into vector<float>: parsed as a slightly larger double and rejected with Overflow; same root cause'),
     ('C18', 'xml/empty-string-is-null/populated-string-keeps-prior-text',
      'XML: an empty string is written as an empty element, which the reader treats as null = "not loaded" (pugixml_archive.h LoadValue: "Empty node is treated as Null"); loading <root><value/></root> into a vector<string>{"old"} or a class member holding "old" keeps "old" while a fresh target gets "". By design of the XML mapping (null and "" share one representation); changing it would alter the null semantics relied upon by optional/pointer members, so it is recorded, not repaired'),
     ('C10', 'json/invalid-utf8-accepted-from-memory-rejected-from-stream',
